@@ -58,7 +58,7 @@ func scnRenewRecipes(ctx *check.JobCtx) {
 	if mode == "term-reassign" || mode == "fp-reassign" {
 		// an unrelated stored order keeps other customers' money in the escrows
 		other := w.NewDataId()
-		_, o0 := w.Store(world.StoreReq{Owner: l.Owners[1].Id, Gateway: g, DataId: other, CommitId: other, Duration: 3700, Replica: 1, Timeout: 500, Size: 2_000_000})
+		_, o0 := w.Store(world.StoreReq{Owner: l.Owners[1].Id, Gateway: g, DataId: other, CommitId: other, Duration: 6000, Replica: 3, Timeout: 500, Size: 5_000_000})
 		w.CompleteAll(o0)
 		// replica 2: one provider stores, the other stays silent and is replaced at the first timeout;
 		// the owner terminates / force-replaces while the replacement is still pending
